@@ -12,8 +12,8 @@
 (***************************************************************************)
 EXTENDS Coinswap
 
-VARIABLES l, pre, drift, driftAt
-tvars == <<st, ev, gh, hist, l, pre, drift, driftAt>>
+VARIABLES l, pre, ghPre, drift, driftAt
+tvars == <<st, ev, gh, hist, l, pre, ghPre, drift, driftAt>>
 
 Trace == ndJsonDeserialize(IOEnv.TRACE_FILE)
 
@@ -24,7 +24,7 @@ FromLog(r) ==
 TraceInit ==
   /\ Trace[1].ev.name = "Init"
   /\ st = FromLog(Trace[1].st) /\ pre = FromLog(Trace[1].st)
-  /\ ev = Trace[1].ev /\ gh = GhostInit /\ hist = <<>>
+  /\ ev = Trace[1].ev /\ gh = GhostInit /\ ghPre = GhostInit /\ hist = <<>>
   /\ l = 2 /\ drift = 0 /\ driftAt = 0
 
 Predicted(s, e) ==
@@ -38,9 +38,9 @@ TraceNext ==
          t == FromLog(Trace[l].st)
      IN /\ ev' = e /\ st' = t
         /\ IF e.name = "Init"
-           THEN /\ gh' = GhostInit /\ pre' = t
+           THEN /\ gh' = GhostInit /\ ghPre' = GhostInit /\ pre' = t
                 /\ UNCHANGED <<drift, driftAt>>
-           ELSE /\ gh' = GhostStep(gh, st, e, t) /\ pre' = st
+           ELSE /\ gh' = GhostStep(gh, st, e, t) /\ ghPre' = gh /\ pre' = st
                 /\ LET d == Predicted(st, e) # Observed(e, t) IN
                    /\ drift' = drift + (IF d THEN 1 ELSE 0)
                    /\ driftAt' = IF d /\ driftAt = 0 THEN l ELSE driftAt
@@ -63,7 +63,17 @@ Clauses ==
    C02_RemoveGivesAtLeast |-> C02_RemoveGivesAtLeast(pre, ev, st),
    C02_Supply |-> C02_Supply(pre, ev, st),
    C02_Conservation |-> C02_Conservation(st),
-   Rejected_NoEffect |-> Rejected_NoEffect(pre, ev, st)]
+   Rejected_NoEffect |-> Rejected_NoEffect(pre, ev, st),
+   \* diagnostics (never a verdict)
+   X01_PoolNotWedged |-> X01_PoolNotWedged(st),
+   X01_WedgedForever |-> X01_WedgedForever(pre, ev, st),
+   X01_AddNeverLockedOut |-> X01_AddNeverLockedOut(pre, ev),
+   X01_NoPanic |-> X01_NoPanic(ev),
+   X02_RouteBalanced |-> X02_RouteBalanced(pre, ev, st),
+   X02_RoundTripNoGain |-> X02_RoundTripNoGain(pre, ev, st, ghPre),
+   X02_BlockedUntouched |-> X02_BlockedUntouched(pre, ev, st),
+   X02_ModuleOnlyGifts |-> X02_ModuleOnlyGifts(st, gh),
+   X02_DonateFrame |-> X02_DonateFrame(pre, ev, st)]
 
 Failing == IF ev.name = "Init"
            THEN (IF C02_Conservation(st) THEN {} ELSE {"C02_Conservation"})
@@ -78,7 +88,9 @@ Exercised ==
   {c \in {"sell_1", "buy_1", "sell_2", "buy_2", "swap_third", "swap_third_2",
           "add_create", "add_funded", "add_refund_empty", "remove_ok", "remove_all",
           "adduni_ok", "remuni_ok", "donate_ok", "reject", "panic", "deadline_edge",
-          "deadline_rej", "bound_edge", "bound_rej", "blocked_rej", "mint_zero"} :
+          "deadline_rej", "bound_edge", "bound_rej", "blocked_rej", "mint_zero",
+          "wedged", "wedged_add_rej", "wedged_adduni", "sandwich", "round_trip", "route_skewed",
+          "to_module", "donate_blocked_rej", "donate_module"} :
      CASE c = "sell_1" -> IsSwap(1, FALSE)
        [] c = "buy_1" -> IsSwap(1, TRUE)
        [] c = "sell_2" -> IsSwap(2, FALSE)
@@ -102,6 +114,20 @@ Exercised ==
                               /\ (IF ev.isBuy THEN SwapPaid(pre, ev, st) = ev.amt
                                               ELSE SwapRecv(pre, ev, st) = ev.amt2)
        [] c = "blocked_rej" -> ev.name = "Swap" /\ ~ev.ok /\ ev.to \in Blocked
+       [] c = "wedged" -> ~X01_PoolNotWedged(st)
+       [] c = "wedged_add_rej" -> ~X01_AddNeverLockedOut(pre, ev)
+       [] c = "wedged_adduni" -> ev.name = "AddUnilateral" /\ ev.ok /\ ev.denom \in DOMAIN pre.pools
+                                 /\ Wedged(pre, ev.denom)
+       [] c = "sandwich" -> IsSingleSwapOK(pre, ev) /\ Sandwich(gh)
+       [] c = "round_trip" -> IsSingleSwapOK(pre, ev) /\ ev.to = ev.who /\ ghPre.last.who = ev.who
+                              /\ ev.inDenom = ghPre.last.outD /\ ev.outDenom = ghPre.last.inD
+                              /\ Legs(pre, ev, st)[1].paid <= ghPre.last.recv
+       [] c = "route_skewed" -> SwapOK(pre, ev) /\ SwapKnown(pre, ev) /\ IsDouble(pre, ev.inDenom, ev.outDenom)
+                                /\ (PoolS(pre, ev.inDenom) >= 4 * PoolS(pre, ev.outDenom)
+                                    \/ PoolS(pre, ev.outDenom) >= 4 * PoolS(pre, ev.inDenom))
+       [] c = "to_module" -> SwapOK(pre, ev) /\ ev.to = MOD
+       [] c = "donate_blocked_rej" -> ev.name = "Donate" /\ ~ev.ok /\ ev.to \in Blocked
+       [] c = "donate_module" -> ev.name = "Donate" /\ ev.ok /\ ev.to = MOD
        [] c = "mint_zero" -> ev.name \in {"AddLiquidity", "AddUnilateral"} /\ ev.ok /\ ev.minted = 0}
 Coverage == Exercised = {} \/ PrintT(<<"EXERCISED", Exercised>>)
 
